@@ -123,6 +123,146 @@ def oracle_fit(ctx, forced=None):
     return None, case, reg.stop_reason_
 
 
+def popov_max(A, B, Xi, n_grid=600):
+    """largest eigenvalue over a frequency grid of [G(z); I]^* Xi [G(z); I], G(z) = (zI - A)^-1 B.  A system x+ = Ax + Bu,
+    y = x with A stable that is dissipative for s(u, y) = -[y; u]' Xi [y; u] with ANY storage function V >= 0, V(0) = 0 has
+    sum_k s(u_k, y_k) >= 0 along every trajectory that starts at the origin, hence (Parseval) this quantity is <= 0 at every
+    frequency: a sample > 0 refutes dissipativity without reference to P_.  Returns (value, frequency, sigma_max(G) there)"""
+    n, m = B.shape
+    best = (-np.inf, 0.0, 0.0)
+    for th in np.linspace(0, np.pi, n_grid):
+        G = np.linalg.solve(np.exp(1j * th) * np.eye(n) - A, B)
+        F = np.vstack((G, np.eye(m)))
+        Pi = F.conj().T @ Xi @ F
+        v = np.max(np.linalg.eigvalsh((Pi + Pi.conj().T) / 2))
+        if v > best[0]:
+            best = (v, th, np.linalg.svd(G, compute_uv=False)[0])
+    return best
+
+
+def own_tikhonov(X, nu, alpha):
+    """the unconstrained regularised least-squares Koopman matrix, computed here from the raw data (normal equations of
+    min ||Theta+ - U Psi||_F^2 / q + alpha/q ||U||_F^2): used only to CLASSIFY a case (is the constraint active?)"""
+    ep = X[:, 0]
+    Z = X[:, 1:]
+    nx = Z.shape[1] - nu
+    Psi, Th = [], []
+    for l in np.unique(ep):
+        Zl = Z[ep == l]
+        Psi.append(Zl[:-1])
+        Th.append(Zl[1:, :nx])
+    Psi, Th = np.vstack(Psi), np.vstack(Th)
+    q = Psi.shape[0]
+    H = Psi.T @ Psi / q + alpha / q * np.eye(nx + nu)
+    G = Th.T @ Psi / q
+    return np.linalg.lstsq(H, G.T, rcond=None)[0].T
+
+
+WEAK_REGIMES = ['weak input channel', 'small units', 'loosened iteration tolerance', 'barely active', 'weak input channel']
+
+
+def oracle_weak_effect(ctx):
+    """ACTIVE constraints whose effect on the COST is tiny.  The plant's l2 gain exceeds the requested bound (by 5 % ... a
+    factor 3), so the least-squares model is not admissible, but the directions the constraint acts on carry almost no
+    weight in the one-step cost: the input channel is recorded with an amplitude 1e-2 ... 1e-4 of the states (many short
+    episodes with random initial states keep the states excited), or all data are in small units, or alpha is tiny, or
+    iter_atol / iter_rtol are loosened, or the constraint is only barely active.  Whatever stop_reason_ says, the returned
+    (coef_, P_) must satisfy  [A B]' P [A B] - diag(P, 0) + Xi <= 0  with P_ >= 0 (eigenvalues, computed here), and -
+    independently of P_ - the frequency-domain inequality of the supply rate (for a gain bound: l2 gain <= bound)."""
+    rng = ctx.rng
+    snap = ctx.snap()
+    from .c10 import hinf_norm
+    from .. import structural as st
+    rs = np.random.RandomState(rng.randint(0, 2 ** 31 - 1))
+    nx, nu = rng.randint(1, 3), rng.randint(1, 2)
+    g = rng.choice([1.5, 2.0, 4.0])
+    A0 = rs.uniform(-1, 1, (nx, nx))
+    A0 *= rng.choice([0.4, 0.6, 0.8]) / max(0.2, np.max(np.abs(np.linalg.eigvals(A0))))
+    B0 = rs.uniform(-1, 1, (nx, nu))
+    over = rng.choice([1.05, 1.5, 3.0])
+    B0 *= over * g / hinf_norm(A0, B0, np.eye(nx), np.zeros((nx, nu)), 600)     # plant gain = over * requested bound
+    regime = rng.choice(WEAK_REGIMES)
+    amp_x, amp_u, noise, tol_kw = 1.0, 1.0, 0.0, {}
+    alpha = rng.choice([0, 1e-8, 1e-4])
+    if regime == 'weak input channel':
+        amp_u = rng.choice([1e-2, 1e-3, 5e-4, 1e-4])
+    elif regime == 'small units':
+        amp_x = amp_u = rng.choice([1e-2, 1e-3, 1e-4])
+    elif regime == 'loosened iteration tolerance':
+        tol_kw = dict(rng.choice([{'iter_atol': 1e-2}, {'iter_atol': 1.0}, {'iter_atol': 100.0}, {'iter_rtol': 0.1},
+                                  {'iter_rtol': 1.0}, {'iter_atol': 1e-3, 'iter_rtol': 1e-2}]))
+        noise = 0.01
+        alpha = rng.choice([0, 0.1, 1e-4])
+    else:
+        over_b = rng.choice([1.01, 1.02, 1.05])
+        B0 *= over_b / over
+        over = over_b
+        noise = 0.001
+    n_ep, n = rng.randint(12, 30), rng.randint(6, 12)
+    blocks = []
+    for l in range(n_ep):
+        x = np.zeros((n, nx)); u = amp_u * rs.randn(n, nu); x[0] = amp_x * rs.randn(nx)
+        for k in range(n - 1):
+            x[k + 1] = A0 @ x[k] + B0 @ u[k] + noise * amp_x * rs.randn(nx)
+        blocks.append((l, np.hstack((x, u))))
+    X = st.ref_combine(blocks, True)
+    Xi = gain_supply(nx, nu, g)
+    mixed = rng.random() < 0.3
+    if mixed:
+        S = np.array([[rng.choice([0.3, -0.2, 0.1]) for _ in range(nu)] for _ in range(nx)])
+        Xi[:nx, nx:] = S
+        Xi[nx:, :nx] = S.T
+    max_iter = rng.choice([1, 2, 3, 6])
+    reg = lmi.LmiEdmdDissipativityConstr(alpha=alpha, supply_rate=Xi, max_iter=max_iter, solver_params=dict(lc.SOLVER), **tol_kw)
+    case = {'nx': nx, 'nu': nu, 'gain': g, 'plant_gain_over_bound': over, 'regime': regime, 'mixed': mixed, 'alpha': alpha,
+            'max_iter': max_iter, 'tolerances': tol_kw, 'state_amplitude': amp_x, 'input_amplitude': amp_u, 'Xi': Xi.tolist(),
+            'X': X.tolist(), 'replay': {'rng': snap, 'oracle': 'weak-effect'}}
+    # classification only: is the constraint active, i.e. does the unconstrained least-squares model (own computation)
+    # violate the frequency-domain inequality of the supply rate?
+    U0 = own_tikhonov(X, nu, alpha)
+    if np.max(np.abs(np.linalg.eigvals(U0[:, :nx]))) < 1:
+        active = popov_max(U0[:, :nx], U0[:, nx:], Xi, 300)[0] > 1e-3 * g
+    else:
+        active = True
+    case['constraint_active'] = bool(active)
+    try:
+        reg.fit(X, n_inputs=nu, episode_feature=True)
+    except Exception:
+        return None, case, 'fit did not complete', active
+    if not np.any(reg.coef_):
+        return None, case, 'zero model: ' + str(reg.stop_reason_), active
+    stop = str(reg.stop_reason_)
+    U = reg.coef_.T
+    A, B = U[:, :nx], U[:, nx:]
+    P = np.asarray(reg.P_, dtype=float)
+    P = (P + P.T) / 2
+    nP = max(1.0, np.linalg.norm(P, 2))
+    problems = []
+    min_p = np.min(np.linalg.eigvalsh(P))
+    if min_p < -1e-7 * nP:
+        problems.append(f'returned storage matrix P_ is not positive semidefinite (min eigenvalue {min_p:.4g})')
+    M = U.T @ P @ U + Xi
+    M[:nx, :nx] -= P
+    scale = nP * (1 + np.linalg.norm(U, 2) ** 2) + np.linalg.norm(Xi, 2)
+    max_m = np.max(np.linalg.eigvalsh((M + M.T) / 2))
+    if max_m > 1e-5 * scale:
+        problems.append('dissipation inequality violated with the returned (coef_, P_): max eigenvalue of '
+                        f"[A B]'P[A B] - diag(P,0) + Xi = {max_m:.5g} > 0")
+    if np.max(np.abs(np.linalg.eigvals(A))) < 1:
+        v, th, sg = popov_max(A, B, Xi)
+        if v > 1e-4 * np.linalg.norm(Xi, 2) * (1 + sg ** 2):
+            problems.append(f'no storage function at all exists for the returned model: [G;I]^* Xi [G;I] has eigenvalue {v:.5g} > 0 '
+                            f'at frequency {th:.4f} rad/sample')
+        if not mixed:
+            nrm = hinf_norm(A, B, np.eye(nx), np.zeros((nx, nu)), 600)
+            if nrm > g * (1 + 1e-4):
+                problems.append(f'l2 gain {nrm:.5f} of the returned model exceeds the bound {g} encoded in the supply rate')
+    if problems:
+        return ('; '.join(problems) + f' (regime: {regime}, constraint {"active" if active else "inactive"} for the unconstrained '
+                f'least-squares model; stop_reason_ {stop!r}, n_iter_ {reg.n_iter_})', case, None, active)
+    return None, case, stop, active
+
+
 def probe_default(ctx):
     """second clause: with default arguments, on data generated by a strictly dissipative (gain < 1) system, the fit must
     not silently return the all-zero Koopman matrix"""
@@ -210,10 +350,17 @@ def run(ctx):
     ctx.rule = ('(i) the real _create_problem_a/_b of LmiEdmdDissipativityConstr (default and random symmetric supply '
                 'rates) evaluated with PICOS at dyadic points vs the Lean block over Q; (ii) scripted-solver loop '
                 'correspondence; (iii) cvxopt fits with gain-bound supply rates: dissipation inequality along random '
-                'points with the returned (coef_, P_), frequency-domain gain; (iv) probe of the default configuration')
+                'points with the returned (coef_, P_), frequency-domain gain; (iv) probe of the default configuration; '
+                '(v) fits whose constraint is ACTIVE but nearly invisible in the cost (input channel 1e-2..1e-4 of the state '
+                'amplitude, data in small units, tiny alpha, loosened iter_atol / iter_rtol, barely active bounds; gain and '
+                'mixed supply rates): whatever stop_reason_ says, P_ >= 0 and the eigenvalues of [A B]\'P_[A B] - diag(P_,0) '
+                '+ Xi <= 0, and - independently of P_ - the frequency-domain inequality of the supply rate / the l2 gain of '
+                'the returned model; each case is classified active / inactive with an own least-squares solution')
     ctx.explanation = ('theorems C11_* (dissipation inequality from the LMI, summed over any horizon, default supply = l2 gain '
                        '<= 1, and the infeasibility of the default first sub-problem for every data set); correspondence of '
-                       'structure and loop; oracles on cvxopt fits')
+                       'structure and loop; oracles on cvxopt fits, including data regimes in which an active constraint '
+                       'changes the cost by less than the iteration tolerances (the returned pair must be dissipative for every '
+                       'stop reason)')
     ctx.assumptions = ["an 'optimal' solver answer satisfies its constraints up to tolerance (measured)"]
     ctx.proof_obligations('Properties.C11', THEOREMS)
     drv = ctx.get_driver()
@@ -270,6 +417,27 @@ def run(ctx):
                 if stop_at_first:
                     return
     fits(ctx.n(16, 300))
+
+    def weak_fits(n, stop_at_first=False):
+        for _ in range(n):
+            why, case, note, active = oracle_weak_effect(ctx)
+            tag = 'weak-effect fit (' + case['regime'] + ')'
+            if (note or '').startswith('zero'):
+                tag += ': zero model'
+            elif (note or '') == 'fit did not complete':
+                tag += ': fit did not complete'
+            else:
+                tag += ': constraint active' if active else ': constraint inactive'
+            ctx.count(tag)
+            if why is None and note is not None and not note.startswith('zero') and note != 'fit did not complete':
+                ctx.count('weak-effect fit, stop: ' + lc.stop_category(note))
+            ctx.record_case({k: v for k, v in case.items() if k not in ('X', 'replay')}, True)
+            if why:
+                ctx.fail(why, case, {'estimator': 'LmiEdmdDissipativityConstr', 'supply_rate': 'mixed' if case['mixed'] else 'gain',
+                                     'clause': 'dissipative', 'regime': case['regime']})
+                if stop_at_first:
+                    return
+    weak_fits(ctx.n(24, 300))
     res = probe_default(ctx)
     if res:
         ctx.fail(*res)
@@ -279,7 +447,11 @@ def run(ctx):
         if res:
             ctx.fail(*res)
     # a broken proof / correspondence with no failing fit so far: a larger population of fits (same oracle)
-    return ctx.finish('proof', lambda c: fits(80, True))
+    def search(c):
+        fits(80, True)
+        if not c.failures:
+            weak_fits(80, True)
+    return ctx.finish('proof', search)
 
 
 def replay(ctx, path):
@@ -291,6 +463,10 @@ def replay(ctx, path):
         print('this replay carries no re-executable oracle call (broken proof / correspondence: see "broken")')
         return 1
     ctx.restore(r['rng'])
+    if r.get('oracle') == 'weak-effect':
+        why, case, note, _ = oracle_weak_effect(ctx)
+        print('oracle now:', why or 'property holds on this input', '' if note is None else f'({note})')
+        return 1 if why else 0
     why, case, note = oracle_fit(ctx, forced=None if r['forced'] is None else tuple(r['forced']))
     print('oracle now:', why or 'property holds on this input', '' if note is None else f'({note})')
     return 1 if why else 0
